@@ -11,6 +11,14 @@ PY = "/venv/bin/python"
 
 # property -> (technique, level text, level note, design ref)
 CLAIMED = {
+    "C17": ("TLA+ specification of sort_axis / take_axis / compress_axis / dropna / fillna / setna (spec/MC_C17.tla) model-checked by TLC "
+            "(SlicesWithLabels, SortedResult incl. idempotence, DropKeepsOrder, FillExactly) and replayed",
+            "TLC enumerates 1-3-d arrays with every NaN pattern on <= 4 cells (slice / all / sparse families beyond), int and float data, every axis, "
+            "every key permutation, index lists with repeats and the empty list, all masks, minvalid from 0 to the slice size, fills of int and float "
+            "kind, setna by scalar / list / mask on duplicated values; theorems state that each slice moves with its label; replay with label kinds "
+            "int / float / str, axis by name / position, key as callable / dict, inplace variants.",
+            "Trusted: TLC, projection/concretisation, NumPy.",
+            "5 (C17)"),
     "C12": ("TLA+ specification of stack / concatenate (spec/MC_C12.tla: matching by dimension name and label, refusal on mismatching secondary "
             "axes, outer alignment with align=True) model-checked by TLC (StackSound, ConcatSound, RefuseIffMismatch) and replayed",
             "TLC enumerates lists of 1-2 two-dimensional (thorough 1-3) and 1-3 one-dimensional arrays whose later members list the dims in the same "
